@@ -1808,7 +1808,7 @@ PROPS["C02"]["configs"] = dict(quick=["d", "po", "ap", "fr"], thorough=["d", "po
 PROPS["C11"]["configs"] = dict(quick=["d", "fr"], thorough=["d", "ap", "fr"])
 PROPS["C12"]["configs"] = dict(quick=["d", "fr"], thorough=["d", "ap", "fr"])
 PROPS["C07"]["configs"] = dict(quick=["fr", "rvpofr"], thorough=["fr", "frap", "d", "rvpofr"])
-PROPS["C20"]["configs"] = dict(quick=["ap"], thorough=["ap", "frap", "poap", "d"])
+PROPS["C20"]["configs"] = dict(quick=["ap", "d"], thorough=["ap", "frap", "poap", "d", "fr"])
 LONG_SEQ_RULE = (" Tag long-seq / long-seq-str (c01::long_seq; C01, C02, C14): the value of a literal does not depend on what was parsed before it - 36 ordered "
                  "pairs of long-number kinds in five document shapes and 400 (thorough 4000) arrays, nested arrays and object values holding 2-4 CONSECUTIVE "
                  "long numbers (integers of 20-41 digits, fractions during which the significand overflows u64, long integers with fraction / exponent, the point "
@@ -1833,7 +1833,7 @@ PROPS["C14"]["rule"] += (" Tag exp-edge (c01::exp_edge): sixteen mantissas (frac
 PROPS["C20"]["rule"] += (" Tag nearmiss (c06::number_near_misses, op acc): fourteen complete literals followed by, preceded by and split by EVERY byte value 0..=255 (>= 0x80 as the "
                          "UTF-8 text of U+0080..U+00FF), twenty two- and three-byte tails / heads (NUL bytes, blanks, line ends, a second literal, BOM), and 2000 (thorough 20000) "
                          "random number texts with one arbitrary byte inserted: only strings of the RFC 8259 number grammar may be accepted by Number::from_str. "
-                         "Op anynum (harness/src/anynum.rs, lean/SJ/Drv/C20Any.lean; thorough also in the default build): what a visitor driven through deserialize_any receives "
+                         "Op anynum (harness/src/anynum.rs, lean/SJ/Drv/C20Any.lean; also in the default build, thorough also under float_roundtrip - builds without arbitrary_precision run tag nearmiss and op anynum only, they are the 'without the feature' side): what a visitor driven through deserialize_any receives "
                          "(which visit_* method and the value; from str, slice and a chunked reader) and which variant serde's untagged enum {U(u64), I(i64), F(f64), S(String)} "
                          "selects, for 35 boundary literals, the integer families of C06 (+-40, thorough +-300, around every power of two up to 2^128), 2000 (thorough 20000) "
                          "integers of 19-21 digits on both sides of i64::MAX and u64::MAX and 2000 (thorough 20000) general number texts. The model transcribes parse_any_number "
